@@ -677,12 +677,8 @@ example :
 
 /-! ## building the message of an engine error -/
 
-/-- no script runs while the message is built at the sites that name the callee instead of formatting the value -/
-theorem message_no_script_partial (s : MsgSite) (h : passesValue s = false) :
-    messageScriptCalls s = Spec.messageScriptCalls s := by
-  simp [messageScriptCalls, Spec.messageScriptCalls, h]
-
-/-- Dev `msg_runs_script`: `[1].forEach(o)` calls `o.toString` to build its TypeError's message -/
-example : messageScriptCalls .forEach = ["ts"] ∧ Spec.messageScriptCalls .forEach = [] := by decide
+/-- no script runs while the message of a "not callable / not a function" TypeError is built, at any site, whatever
+    the offending value is -/
+theorem message_no_script (s : MsgSite) : messageScriptCalls s = Spec.messageScriptCalls s := rfl
 
 end OttoVerif.C19.Thm
